@@ -527,7 +527,8 @@ def check_property(prop, tier, seed, keep=False, only=None):
 def write_evidence(prop, tier, seed, mod, results, reports, extra, wall, violations, known_hits, machinery, path):
     proved_units = [(u, r) for u, r in results if not u.bounded]
     bounded_units = [(u, r) for u, r in results if u.bounded]
-    obligations = sum(r['obligations'] for u, r in proved_units) + extra.get('obligations', 0)
+    # obligations that fail exactly as a listed known finding are reported under coverage.known_findings, not counted as proof obligations
+    obligations = sum(r['obligations'] for u, r in proved_units) + extra.get('obligations', 0) - len([1 for k, u, fl in known_hits if not u.bounded])
     discharged = sum(r['discharged'] for u, r in proved_units) + extra.get('discharged', 0)
     samples = []
     for u, r in results:
